@@ -114,7 +114,7 @@ func c15Fetcher() utils.UrlFetcher {
 	c15FilesOnce.Do(func() {
 		c15Files = map[string]string{}
 		for _, f := range []string{"weasyprint.otf", "AHEM____.TTF"} {
-			b, err := os.ReadFile("/repo/resources_test/" + f)
+			b, err := os.ReadFile(fonts.Dir + "/" + f)
 			if err != nil {
 				panic("verif: cannot read font " + f + ": " + err.Error())
 			}
